@@ -89,9 +89,33 @@ func StrictValidate(m *ir.Module) []Issue {
 	return is
 }
 
+// Options selects the IR dialect judged.
+type Options struct {
+	// SSA: the module went through the DXIL pre-emission passes.  ExprAlias and
+	// ExprPhi are legal; their operands may be later expressions and are not
+	// subject to the Emit scoping rule (dominance is judged by CheckSSA instead).
+	SSA bool
+}
+
+// StrictValidateOpts is StrictValidate for a given dialect; with Options.SSA the
+// issues of CheckSSA are appended.
+func StrictValidateOpts(m *ir.Module, o Options) []Issue {
+	v := &validator{m: m, opts: o}
+	is, _ := v.run()
+	if o.SSA {
+		is = append(is, CheckSSA(m)...)
+	}
+	return is
+}
+
 // StrictValidateStats is StrictValidate plus counters.
 func StrictValidateStats(m *ir.Module) ([]Issue, Stats) {
 	v := &validator{m: m}
+	return v.run()
+}
+
+func (v *validator) run() ([]Issue, Stats) {
+	m := v.m
 	v.types()
 	v.constantsAndGlobals()
 	handlesOK := len(v.issues) == 0
@@ -111,6 +135,7 @@ func StrictValidateStats(m *ir.Module) ([]Issue, Stats) {
 }
 
 type validator struct {
+	opts   Options
 	m      *ir.Module
 	issues []Issue
 	st     Stats
@@ -435,11 +460,16 @@ func (v *validator) function(where string, f *ir.Function, ep *ir.EntryPoint) {
 			ok = false
 			continue
 		}
+		ssaKind := false
+		switch kind.(type) {
+		case ir.ExprAlias, ir.ExprPhi:
+			ssaKind = v.opts.SSA
+		}
 		for _, op := range Operands(kind) {
 			if int(op) >= n {
 				v.add(RuleHandleRange, ew, "%s: operand [%d] out of range (%d expressions)", kindName(kind), op, n)
 				ok = false
-			} else if int(op) >= i {
+			} else if int(op) >= i && !ssaKind {
 				v.add(RuleExprOrder, ew, "%s: operand [%d] is not an earlier expression", kindName(kind), op)
 				ok = false
 			}
@@ -496,6 +526,7 @@ func (v *validator) function(where string, f *ir.Function, ep *ir.EntryPoint) {
 
 	// typing
 	ty := NewTypifier(m, f)
+	ty.SSA = v.opts.SSA
 	if len(f.ExpressionTypes) != n {
 		v.add(RuleTypingMissing, where, "ExpressionTypes has %d entries for %d expressions", len(f.ExpressionTypes), n)
 	}
@@ -681,8 +712,15 @@ func (w *emitWalk) block(b ir.Block, depth int) {
 					continue
 				}
 				w.emitted[h]++
-				for _, op := range Operands(kind) {
-					w.use(op, fmt.Sprintf("operand of emitted [%d] %s", h, kindName(kind)))
+				ssaKind := false
+				switch kind.(type) {
+				case ir.ExprAlias, ir.ExprPhi:
+					ssaKind = w.v.opts.SSA
+				}
+				if !ssaKind {
+					for _, op := range Operands(kind) {
+						w.use(op, fmt.Sprintf("operand of emitted [%d] %s", h, kindName(kind)))
+					}
 				}
 				w.makeAvail(h)
 			}
@@ -776,6 +814,7 @@ type flow struct {
 func (v *validator) returns(where string, f *ir.Function) {
 	m := v.m
 	ty := NewTypifier(m, f)
+	ty.SSA = v.opts.SSA
 	var walk func(b ir.Block, reachable bool, depth int) flow
 	walk = func(b ir.Block, reachable bool, depth int) flow {
 		out := flow{}
